@@ -1182,6 +1182,16 @@ func (fr *frame) setEdge(from, to *ssa.BasicBlock, cond string, st *State) {
 		return
 	}
 	fr.edge[[2]int{from.Index, to.Index}] = name
+	if fr.top {
+		for _, li := range fr.loopList {
+			if li.spec != nil && li.spec.Complete && li.body[from] && !li.body[to] && from != li.header {
+				saved := fr.curReach
+				fr.curReach = "true"
+				fr.oblige("loopexit", fmt.Sprintf("loop%d:%s", li.ord, li.spec.CompleteLabel), fr.props, not(name), fmt.Sprintf("loop %d is left only through its header: the exit from block %d is unreachable", li.ord, from.Index), 0)
+				fr.curReach = saved
+			}
+		}
+	}
 }
 
 func (fr *frame) execBlock(b *ssa.BasicBlock, st *State) {
@@ -1346,6 +1356,13 @@ func (fr *frame) execInstr(ins ssa.Instruction, st *State) {
 		var rs []Val
 		for _, r := range x.Results {
 			rs = append(rs, fr.val(r))
+		}
+		if fr.top {
+			for _, li := range fr.loopList {
+				if li.spec != nil && li.spec.Complete && li.body[b] {
+					fr.oblige("loopexit", fmt.Sprintf("loop%d:%s", li.ord, li.spec.CompleteLabel), fr.props, "false", fmt.Sprintf("loop %d is left only through its header: the return inside it is unreachable", li.ord), x.Pos())
+				}
+			}
 		}
 		fr.returns = append(fr.returns, retInfo{reach: fr.curReach, results: rs, st: st.clone(), pos: x.Pos(), ord: len(fr.returns) + 1, block: b})
 	case *ssa.Panic:
